@@ -20,3 +20,5 @@ import SigpyVerif.Props.C13
 import SigpyVerif.Props.C12
 import SigpyVerif.Props.C15
 import SigpyVerif.Props.C18
+import SigpyVerif.Props.C16
+import SigpyVerif.Props.C17
